@@ -195,7 +195,94 @@ theorem signature_columns_are_note_array_columns (h : readable "noteFields") :
   revert h
   decide +kernel
 
-/-- the translator read everything on this tree (an unreadable item would make its theorem vacuous) -/
-example : Gen.C05.unreadable = [] := by decide +kernel
+-- ------------------------------------------------------------------ round 6: part lists and collapse_rests
+
+/-- the cell of a row under a column name (the pairing of `header` and `cells`, see `column_is_the_cell`) -/
+def column (name : String) (r : Row) : Option Cell :=
+  if name = "onset_beat" then some (.q r.onsetBeat) else if name = "duration_beat" then some (.q r.durBeat)
+  else if name = "onset_quarter" then some (.q r.onsetQuarter) else if name = "duration_quarter" then some (.q r.durQuarter)
+  else if name = "onset_div" then some (.i r.onsetDiv) else if name = "duration_div" then some (.i r.durDiv)
+  else if name = "pitch" then some (.i r.pitch) else if name = "voice" then some (.i r.voice)
+  else if name = "id" then some (.s r.id) else if name = "step" then some (.s r.step)
+  else if name = "alter" then some (.i r.alter) else if name = "octave" then some (.i r.octave)
+  else if name = "is_grace" then some (.i (if r.isGrace then 1 else 0)) else if name = "grace_type" then some (.s r.graceType)
+  else if name = "ks_fifths" then some (.i r.ksFifths) else if name = "ks_mode" then some (.i r.ksMode)
+  else if name = "ts_beats" then some (.i r.tsBeats) else if name = "ts_beat_type" then some (.i r.tsBeatType)
+  else if name = "ts_mus_beats" then some (.i r.tsMusBeats) else if name = "is_downbeat" then some (.i r.isDownbeat)
+  else if name = "rel_onset_div" then some (.i r.relOnset) else if name = "tot_measure_div" then some (.i r.totMeasure)
+  else if name = "staff" then some (.i r.staff) else if name = "divs_pq" then some (.i r.divsPq)
+  else none
+
+/-- every column the functions can write -/
+def allColumns : List String :=
+  header { spelling := true, ks := true, ts := true, metr := true, grace := true, staff := true, divs := true } true
+
+/-- `column` reads the cell the model prints under that name (all options on: every column) -/
+theorem column_is_the_cell (r : Row) :
+    allColumns.map (fun c => column c r) =
+      (cells { spelling := true, ks := true, ts := true, metr := true, grace := true, staff := true, divs := true } true r).map some := by
+  simp [allColumns, header, cells, column]
+
+/-- an integer cell multiplied, any other cell untouched -/
+def Cell.times (m : Int) : Cell → Cell
+  | .i v => .i (v * m)
+  | c => c
+
+/-- THE COLUMNS `note_array_from_part_list` RESCALES are the three the model's `scaleRow` multiplies — `onset_div`,
+    `duration_div`, `divs_pq` — and no other cell of the row changes (the float columns, the metrical columns
+    `rel_onset_div` / `tot_measure_div` stay as the part wrote them: `merged_metrical_columns_in_part_divisions`);
+    `rest_array_from_part_list` rescales nothing (`mergeRestTables`).  The function forces `include_divs_per_quarter`
+    (the model's `{ o with divs := true }`), and a part without rows counts with divisions 1 (`tableDivs []`). -/
+theorem rescale_touches_exactly_the_source_columns :
+    (readable "rescaledColumns" →
+      Gen.C05.rescaledColumns.map (·.1) = ["note_array_from_part_list", "rest_array_from_part_list"] ∧
+      (Gen.C05.rescaledColumns.map (·.2))[1]? = some [] ∧
+      ∀ (m : Int) (r : Row), ∀ c ∈ allColumns,
+        column c (scaleRow m r) =
+          if c ∈ (Gen.C05.rescaledColumns.flatMap (·.2)) then (column c r).map (Cell.times m) else column c r) ∧
+    (readable "forcedOptions" → Gen.C05.forcedOptions = [("include_divs_per_quarter", "true")]) ∧
+    (readable "emptyPartDivs" → Gen.C05.emptyPartDivs = [("divs_pq", ((tableDivs [] : Nat) : Int))]) := by
+  refine ⟨?_, by decide +kernel, by decide +kernel⟩
+  intro h
+  have hl : Gen.C05.rescaledColumns.flatMap (·.2) = ["divs_pq", "duration_div", "onset_div"] := by
+    revert h; decide +kernel
+  refine ⟨by revert h; decide +kernel, by revert h; decide +kernel, ?_⟩
+  intro m r c hc
+  rw [hl]
+  simp only [allColumns, header, if_true, List.cons_append, List.nil_append, List.mem_cons, List.not_mem_nil, or_false] at hc
+  rcases hc with rfl | rfl | rfl | rfl | rfl | rfl | rfl | rfl | rfl | rfl | rfl | rfl | rfl | rfl | rfl | rfl | rfl | rfl |
+    rfl | rfl | rfl | rfl | rfl | rfl <;> rfl
+
+/-- `collapse_rests` SUMS the three duration columns — the cells `absorbS` changes, and no other cell of the absorbing
+    row — and decides adjacency on `onset_div`, `duration_div` and `voice` (`hits`: the integer division columns,
+    repaired fixes/C05-8; the staff is not asked) -/
+theorem collapse_sums_exactly_the_source_columns :
+    (readable "collapseSums" →
+      Gen.C05.collapseSums = ["duration_beat", "duration_div", "duration_quarter"] ∧
+      ∀ (store : Rat → Rat) (acc x : Row), ∀ c ∈ allColumns, c ∉ Gen.C05.collapseSums →
+        column c (absorbS store acc x) = column c acc) ∧
+    (readable "collapseAdjacency" →
+      Gen.C05.collapseAdjacency = ["duration_div", "onset_div", "onset_div", "voice", "voice"]) ∧
+    (∀ (target voice : Int) (x : Row), hits target voice x = true ↔ x.onsetDiv = target ∧ x.voice = voice) := by
+  refine ⟨?_, by decide +kernel, ?_⟩
+  · intro h
+    have hl : Gen.C05.collapseSums = ["duration_beat", "duration_div", "duration_quarter"] := by revert h; decide +kernel
+    refine ⟨hl, ?_⟩
+    intro store acc x c hc hn
+    rw [hl] at hn
+    simp only [allColumns, header, if_true, List.cons_append, List.nil_append, List.mem_cons, List.not_mem_nil, or_false] at hc
+    rcases hc with rfl | rfl | rfl | rfl | rfl | rfl | rfl | rfl | rfl | rfl | rfl | rfl | rfl | rfl | rfl | rfl | rfl | rfl |
+      rfl | rfl | rfl | rfl | rfl | rfl
+    all_goals first
+      | rfl
+      | exact absurd (by decide) hn
+  · intro target voice x
+    unfold hits
+    simp only [Bool.and_eq_true, decide_eq_true_eq]
+
+/- Whether the translator read everything on the tree under test is REPORTED, not demanded: harness/props/c05.py prints
+   the number of unreadable items in the evidence (`translator_unreadable_items`; 0 on the unchanged tree).  An `example`
+   demanding `Gen.C05.unreadable = []` here would turn a harmless rewriting of the source (`x if x else 0` -> `x or 0`)
+   into a broken build - the alarm the `readable` hypotheses exist to avoid. -/
 
 end C05
